@@ -1,8 +1,29 @@
 import NetaddrVerif.Model.Proto
-/-! Driver ops of property C05 (stub: filled in by the property's model). -/
+import NetaddrVerif.Model.Summarise
+import NetaddrVerif.Driver.Cidr
+/-! Driver ops of property C05 on top of the shared `merge` / `range2cidrs` (Driver/Cidr.lean):
+    `range_cidrs R:ver:lo:hi`, `glob2cidrs [l0:h0,l1:h1,l2:h2,l3:h3]`, `unique_ips [items]`. -/
 namespace NV.Driver.C05
-open NV NV.Proto
+open NV NV.Proto NV.Summ
 
-def handle (_op : String) (_args : List String) : Option String := none
+def parseOctet (tok : String) : Option (Nat × Nat) :=
+  match tok.splitOn ":" with
+  | [a, b] => do pure (← a.toNat?, ← b.toNat?)
+  | _ => none
+
+def showAddr (a : Addr) : String := s!"{a.ver}:{a.val}"
+
+def handle (op : String) (args : List String) : Option String :=
+  match op, args with
+  | "range_cidrs", [r] => do
+    let r ← parseRng r
+    pure (showList ((rangeCidrs r).map showNet))
+  | "glob2cidrs", [os] => do
+    let os ← (← parseList os).mapM parseOctet
+    pure (showList ((globToCidrs os).map showNet))
+  | "unique_ips", [items] => do
+    let items ← (← parseList items).mapM NV.Driver.Cidr.parseItem
+    pure (showList ((iterUniqueIps items).map showAddr))
+  | _, _ => none
 
 end NV.Driver.C05
